@@ -102,6 +102,46 @@ func textItem(s, e time.Duration, text string) *astisub.Item {
 	return &astisub.Item{StartAt: s, EndAt: e, Lines: []astisub.Line{{Items: []astisub.LineItem{{Text: text}}}}}
 }
 
+// decorate gives every third cue an inline (karaoke) timestamp on its first run, and every third a voice name and a
+// comment: content that a timing transformation has no business with
+func decorate(it *astisub.Item, k int) *astisub.Item {
+	switch k % 3 {
+	case 1:
+		if len(it.Lines) > 0 && len(it.Lines[0].Items) > 0 {
+			it.Lines[0].Items[0].StartAt = 1500*time.Millisecond + time.Duration(k)
+		}
+	case 2:
+		if len(it.Lines) > 0 {
+			it.Lines[0].VoiceName = "Voice"
+		}
+		it.Comments = []string{"comment"}
+	}
+	return it
+}
+
+// prewarm gives the list a past: with the cues parked on 0,1,2,.. (already ordered, nothing touching) it is ordered,
+// fragmented with a period beyond the end and unfragmented - none of which changes anything - and then the cues get
+// their real times back through the public fields. What a later call does must depend on the list as it is now.
+func prewarm(sub *astisub.Subtitles) {
+	type se struct{ s, e time.Duration }
+	save := make([]se, len(sub.Items))
+	for k, it := range sub.Items {
+		save[k] = se{it.StartAt, it.EndAt}
+		it.StartAt, it.EndAt = time.Duration(3*k), time.Duration(3*k+1)
+	}
+	n := len(sub.Items)
+	sub.Order()
+	sub.Fragment(time.Duration(3*n + 7))
+	sub.Unfragment()
+	sub.Order()
+	if len(sub.Items) != n {
+		panic("prewarm changed the number of cues")
+	}
+	for k, it := range sub.Items {
+		it.StartAt, it.EndAt = save[k].s, save[k].e
+	}
+}
+
 func itemText(i *astisub.Item) string {
 	var ls []string
 	for _, l := range i.Lines {
